@@ -201,7 +201,7 @@ func startHTTPServer(dir, pin string, accs ...*accessory.Accessory) (*Transport,
 	for _, a := range accs {
 		container.AddAccessory(a)
 	}
-	srv := haphttp.NewServer(haphttp.Config{Port: "127.0.0.1:0", Context: hctx, Database: database, Container: container,
+	srv := haphttp.NewServer(haphttp.Config{Port: ":0", Context: hctx, Database: database, Container: container,
 		Device: device, Mutex: &sync.Mutex{}, Emitter: event.NewEmitter()})
 	if registerResource {
 		// as ip_transport.go does for a transport with a camera snapshot function
@@ -239,9 +239,22 @@ func startHTTPServer(dir, pin string, accs ...*accessory.Accessory) (*Transport,
 // address (its next read is then a decrypting read), at most one second. A controller that sends its first
 // encrypted request in the window between the V4 response and that promotion can lose it (DESIGN.md D16: net/http's
 // plaintext background read consumes the first ciphertext byte); every harness that is not about that window waits.
+// sessionOf finds the session of the connection whose remote address, seen from the server, is remote. How the context keys
+// its sessions is the library's business.
+func sessionOf(ctx hap.Context, remote string) hap.Session {
+	for _, c := range ctx.ActiveConnections() {
+		if c != nil && c.RemoteAddr() != nil && c.RemoteAddr().String() == remote {
+			if s := ctx.GetSessionForConnection(c); s != nil {
+				return s
+			}
+		}
+	}
+	return nil
+}
+
 func (t *Transport) WaitEncrypted(local string) bool {
 	for i := 0; i < 2000; i++ {
-		if s, ok := t.Ctx.Get(local).(hap.Session); ok && s != nil && s.Encrypter() != nil {
+		if s := sessionOf(t.Ctx, local); s != nil && s.Encrypter() != nil {
 			return true
 		}
 		time.Sleep(500 * time.Microsecond)
